@@ -1,3 +1,311 @@
 import Driver.Common
--- stub driver for C15 (replaced when the property's model is built)
-def main (args : List String) : IO UInt32 := Driver.main' (fun _ => "bad-op") (fun _ _ => "fail bad-op") args
+import GilVerif.Model.C15
+open Driver GilVerif.Model.C15
+
+/-
+  op formats: see harness/C15/main.cpp.
+  model : runs the code-structured model (correlateRows / correlateCols / convolveRows / convolveCols,
+          convolve2d, extendRows / extendCols / extendBoundary)
+  judge : evaluates the Spec (textbook sums, padded images) on the implementation's observation
+-/
+
+def splitGroups (ws : List String) : List (List String) :=
+  let rec go (ws : List String) (cur : List String) (acc : List (List String)) : List (List String) :=
+    match ws with
+    | [] => (cur.reverse :: acc).reverse
+    | w :: rest => if w = "|" then go rest [] (cur.reverse :: acc) else go rest (w :: cur) acc
+  go ws [] []
+
+def f32 (bits : Int) : Float32 := Float32.ofBits bits.toNat.toUInt32
+def bitsOf (x : Float32) : Int := Int.ofNat x.toBits.toNat
+
+def arrFn (a : Array Int) (i : Int) : Int := if 0 ≤ i then a.getD i.toNat 0 else 0
+
+def showPlanes (w h : Nat) (planes : List (List (List Int))) : String :=
+  toString w ++ " " ++ toString h ++ " : " ++ " | ".intercalate (planes.map fun p => showInts p.flatten)
+
+def isCols (fn : String) : Bool := fn == "cc" || fn == "vc"
+def isConv (fn : String) : Bool := fn == "vr" || fn == "vc"
+
+/-- destination pre-fill of the harness -/
+def prefill (S : Int) (w h : Nat) (ch : Nat) : List (List Int) :=
+  (List.range h).map fun (y : Nat) => (List.range w).map fun (x : Nat) => S + 10 * ((y : Int) * (w : Int) + (x : Int)) + (ch : Int)
+
+/-- source memory function of one plane: P extra samples on both sides along the correlation axis -/
+def srcFn (cols : Bool) (w P : Nat) (plane : Array Int) : Int → Int → Int :=
+  if cols then fun x y => arrFn plane ((y + (P : Int)) * (w : Int) + x)
+  else fun x y => arrFn plane (y * ((w : Int) + 2 * (P : Int)) + (P : Int) + x)
+
+structure C1 where
+  fn : String
+  fixed : Bool
+  pt : String
+  opt : Opt
+  w : Nat
+  h : Nat
+  ks : Nat
+  c : Nat
+  S : Int
+  taps : List Int
+  planes : List (Array Int)
+
+def parseC1 (line : String) : Option C1 :=
+  match splitGroups (words line) with
+  | ["c1", fn, var, pt, opt, w, h, ks, c, S] :: tapsW :: planesW =>
+    match ints [opt, w, h, ks, c, S], ints tapsW, planesW.mapM ints with
+    | some [opt, w, h, ks, c, S], some taps, some planes =>
+      match Opt.ofInt opt with
+      | some o =>
+        if taps.length ≠ ks.toNat ∨ ks < 1 ∨ c < 0 ∨ c ≥ ks ∨ w < 0 ∨ h < 0 then none
+        else some { fn := fn, fixed := var == "fix", pt := pt, opt := o, w := w.toNat, h := h.toNat, ks := ks.toNat,
+                    c := c.toNat, S := S, taps := taps, planes := planes.map List.toArray }
+      | none => none
+    | _, _, _ => none
+  | _ => none
+
+def isFloatPt (pt : String) : Bool := pt == "g32f"
+
+/-- the known finding: the column variants build `transposed_view` of the views, whose `xy_at(0,0)` asserts
+    `x < width()` on a view of width 0 (assert-enabled builds) -/
+def c1Asserts (o : C1) : Bool := isCols o.fn && o.w == 0
+
+def runC1 {α : Type} [Add α] [Mul α] [OfNat α 0] (o : C1) (inj : Int → α) (out : α → Int) : List (List (List Int)) :=
+  let cols := isCols o.fn
+  let P := o.ks - 1
+  (List.range o.planes.length).map fun (ch : Nat) =>
+    let plane := o.planes.getD ch #[]
+    let sf := srcFn cols o.w P plane
+    let src : Int → Int → α := fun x y => inj (sf x y)
+    let dst : List (List α) := (prefill o.S o.w o.h ch).map (·.map inj)
+    let taps := o.taps.map inj
+    let r := match o.fn with
+      | "cr" => correlateRows o.fixed o.opt taps o.c src o.w o.h dst
+      | "cc" => correlateCols o.fixed o.opt taps o.c src o.w o.h dst
+      | "vr" => convolveRows o.fixed o.opt taps o.c src o.w o.h dst
+      | _ => convolveCols o.fixed o.opt taps o.c src o.w o.h dst
+    r.map (·.map out)
+
+def modelC1 (o : C1) : String :=
+  if c1Asserts o then "assert:x<width()"
+  else if isFloatPt o.pt then showPlanes o.w o.h (runC1 o f32 bitsOf)
+  else showPlanes o.w o.h (runC1 (α := Int) o id id)
+
+/-- Spec of the 1-D operations for one plane (exact integers) -/
+def specC1 (o : C1) (ch : Nat) : List (List Int) :=
+  let cols := isCols o.fn
+  let P := o.ks - 1
+  let sf := srcFn cols o.w P (o.planes.getD ch #[])
+  let dst := prefill o.S o.w o.h ch
+  let rowSpec := fun (mem : Int → Int) (n : Nat) (d : List Int) =>
+    if isConv o.fn then specRowConv o.opt o.taps o.c mem n d else specRow o.opt o.taps o.c mem n d
+  if cols then
+    let colsOut := (List.range o.w).map fun (x : Nat) =>
+      rowSpec (fun j => sf (x : Int) j) o.h ((List.range o.h).map fun (y : Nat) => (dst.getD y []).getD x 0)
+    (List.range o.h).map fun (y : Nat) => (List.range o.w).map fun (x : Nat) => (colsOut.getD x []).getD y 0
+  else
+    (List.range o.h).map fun (y : Nat) => rowSpec (fun j => sf j (y : Int)) o.w (dst.getD y [])
+
+def parseObs (obs : String) : Option (Nat × Nat × List (List Int)) :=
+  match splitGroups (words obs) with
+  | (w :: h :: ":" :: p0) :: rest =>
+    match ints [w, h], (p0 :: rest).mapM ints with
+    | some [w, h], some planes => some (w.toNat, h.toNat, planes)
+    | _, _ => none
+  | _ => none
+
+def firstDiff (a b : List Int) : Option Nat :=
+  let rec go (a b : List Int) (i : Nat) : Option Nat :=
+    match a, b with
+    | [], [] => none
+    | x :: xs, y :: ys => if x = y then go xs ys (i + 1) else some i
+    | _, _ => some i
+  go a b 0
+
+/-- float judge: |impl − Σ| ≤ ks·2⁻²²·Σ|terms| (+ tiny), sums evaluated in binary64 -/
+def judgeFloatC1 (o : C1) (planes : List (List Int)) : String :=
+  let cols := isCols o.fn
+  let P := o.ks - 1
+  let effC := if isConv o.fn then o.ks - o.c - 1 else o.c          -- centre as seen by the correlation
+  let tap := fun (k : Nat) => (f32 (if isConv o.fn then o.taps.getD (o.ks - 1 - k) 0 else o.taps.getD k 0)).toFloat
+  let check := fun (ch : Nat) (plane : List Int) =>
+    let sf := srcFn cols o.w P (o.planes.getD ch #[])
+    let n := if cols then o.h else o.w            -- length along the correlation axis
+    (List.range (o.w * o.h)).foldl (fun (acc : Option String) idx =>
+      match acc with
+      | some e => some e
+      | none =>
+        let x := idx % o.w; let y := idx / o.w
+        let i := if cols then y else x
+        let mem := fun (j : Int) => if cols then sf (x : Int) j else sf j (y : Int)
+        let got := f32 (plane.getD idx 0)
+        let inside := windowInside o.ks effC n i
+        let border := (o.opt == .outputIgnore || o.opt == .outputZero) && !inside
+        if border then
+          let want : Int := if o.opt == .outputZero then 0 else o.S + 10 * ((y : Int) * (o.w : Int) + (x : Int)) + (ch : Int)
+          if plane.getD idx 0 = want ∨ (o.opt == .outputZero ∧ got == 0) then none else some "border-output"
+        else
+          let sample := fun (j : Int) =>
+            match o.opt with
+            | .extendPadded => (f32 (mem j)).toFloat
+            | .extendConstant => (f32 (mem (if j < 0 then 0 else if (n : Int) ≤ j then (n : Int) - 1 else j))).toFloat
+            | _ => if 0 ≤ j ∧ j < (n : Int) then (f32 (mem j)).toFloat else 0.0
+          let terms := (List.range o.ks).map fun (k : Nat) => sample ((i : Int) + (k : Int) - (effC : Int)) * tap k
+          let s := terms.foldl (· + ·) 0.0
+          let sa := terms.foldl (fun a t => a + Float.abs t) 0.0
+          if Float.abs (got.toFloat - s) ≤ (o.ks.toFloat) * 2.4e-7 * sa + 1.0e-37 then none else some "textbook-sum(float-tolerance)") none
+  let rec go (ch : Nat) (ps : List (List Int)) : String :=
+    match ps with
+    | [] => "ok"
+    | p :: rest => match check ch p with
+      | some e => "fail " ++ e
+      | none => go (ch + 1) rest
+  go 0 planes
+
+def judgeC1 (o : C1) (obs : String) : String :=
+  if obs.startsWith "assert:" then
+    if o.w == 0 ∨ o.h == 0 then "fail returns-normally-on-empty-image" else "fail no-assertion-failure"
+  else match parseObs obs with
+  | none => "fail not-an-image:" ++ obs.take 40
+  | some (w, h, planes) =>
+    if w ≠ o.w ∨ h ≠ o.h ∨ planes.length ≠ o.planes.length then "fail shape"
+    else if planes.any (fun p => p.length ≠ o.w * o.h) then "fail shape"
+    else if isFloatPt o.pt then judgeFloatC1 o planes
+    else
+      let rec go (ch : Nat) (ps : List (List Int)) : String :=
+        match ps with
+        | [] => "ok"
+        | p :: rest =>
+          match firstDiff p (specC1 o ch).flatten with
+          | none => go (ch + 1) rest
+          | some idx =>
+            let x := idx % o.w; let y := idx / o.w
+            let i := if isCols o.fn then y else x
+            let n := if isCols o.fn then o.h else o.w
+            let effC := if isConv o.fn then o.ks - o.c - 1 else o.c
+            let border := (o.opt == .outputIgnore || o.opt == .outputZero) && !(windowInside o.ks effC n i)
+            "fail " ++ (if border then "border-output" else "textbook-sum") ++ "@" ++ toString x ++ "," ++ toString y
+      go 0 planes
+
+/-! ### convolve_2d -/
+
+structure C2 where
+  w : Nat
+  h : Nat
+  ks : Nat
+  cy : Nat
+  cx : Nat
+  ker : List Int
+  planes : List (Array Int)
+
+def parseC2 (line : String) : Option C2 :=
+  match splitGroups (words line) with
+  | ["c2", _pt, _kt, w, h, ks, cy, cx, _S] :: kerW :: planesW =>
+    match ints [w, h, ks, cy, cx], ints kerW, planesW.mapM ints with
+    | some [w, h, ks, cy, cx], some ker, some planes =>
+      if ker.length ≠ (ks * ks).toNat ∨ ks < 1 ∨ w < 0 ∨ h < 0 ∨ cy < 0 ∨ cx < 0 ∨ cy ≥ ks ∨ cx ≥ ks then none
+      else some { w := w.toNat, h := h.toNat, ks := ks.toNat, cy := cy.toNat, cx := cx.toNat, ker := ker, planes := planes.map List.toArray }
+    | _, _, _ => none
+  | _ => none
+
+def c2Src (o : C2) (ch : Nat) : Int → Int → Int :=
+  let a := o.planes.getD ch #[]
+  fun x y => arrFn a (y * (o.w : Int) + x)
+
+def modelC2 (o : C2) : String :=
+  -- known finding: nth_channel_view evaluates src(0,0) (operator() asserts on an empty view)
+  if o.w == 0 then "assert:0<=x&&x<width()"
+  else if o.h == 0 then "assert:0<=y&&y<height()"
+  else showPlanes o.w o.h ((List.range o.planes.length).map fun (ch : Nat) => convolve2d (c2Src o ch) o.w o.h o.ker o.ks o.cy o.cx)
+
+def judgeC2 (o : C2) (obs : String) : String :=
+  if obs.startsWith "assert:" then
+    if o.w == 0 ∨ o.h == 0 then "fail returns-normally-on-empty-image" else "fail no-assertion-failure"
+  else match parseObs obs with
+  | none => "fail not-an-image:" ++ obs.take 40
+  | some (w, h, planes) =>
+    if w ≠ o.w ∨ h ≠ o.h ∨ planes.length ≠ o.planes.length then "fail shape" else
+    let rec go (ch : Nat) (ps : List (List Int)) : String :=
+      match ps with
+      | [] => "ok"
+      | p :: rest =>
+        let spec := ((List.range o.h).map fun (y : Nat) => (List.range o.w).map fun (x : Nat) =>
+          conv2dSpecAt (c2Src o ch) o.w o.h o.ker o.ks o.cy o.cx x y).flatten
+        match firstDiff p spec with
+        | none => go (ch + 1) rest
+        | some idx => "fail zero-extended-2d-sum@" ++ toString (idx % o.w) ++ "," ++ toString (idx / o.w)
+    go 0 planes
+
+/-! ### extend_row / extend_col / extend_boundary -/
+
+structure Ex where
+  which : String
+  opt : Opt
+  w : Nat
+  h : Nat
+  n : Nat
+  planes : List (Array Int)
+
+def parseEx (line : String) : Option Ex :=
+  match splitGroups (words line) with
+  | ["ex", which, _pt, opt, w, h, n] :: planesW =>
+    match ints [opt, w, h, n], planesW.mapM ints with
+    | some [opt, w, h, n], some planes =>
+      match Opt.ofInt opt with
+      | some o => if w < 0 ∨ h < 0 ∨ n < 0 then none else
+        some { which := which, opt := o, w := w.toNat, h := h.toNat, n := n.toNat, planes := planes.map List.toArray }
+      | none => none
+    | _, _ => none
+  | _ => none
+
+def exSrc (o : Ex) (ch : Nat) : Int → Int → Int :=
+  let a := o.planes.getD ch #[]
+  fun x y => arrFn a ((y + (o.n : Int)) * ((o.w : Int) + 2 * (o.n : Int)) + (o.n : Int) + x)
+
+def exDims (o : Ex) : Nat × Nat :=
+  match o.which with
+  | "row" => (o.w, o.h + 2 * o.n)
+  | "col" => (o.w + 2 * o.n, o.h)
+  | _ => (o.w + 2 * o.n, o.h + 2 * o.n)
+
+def modelEx (o : Ex) : String :=
+  let (W, H) := exDims o
+  showPlanes W H ((List.range o.planes.length).map fun (ch : Nat) =>
+    match o.which with
+    | "row" => extendRows o.opt o.n (exSrc o ch) o.w o.h
+    | "col" => extendCols o.opt o.n (exSrc o ch) o.w o.h
+    | _ => extendBoundary o.opt o.n (exSrc o ch) o.w o.h)
+
+def judgeEx (o : Ex) (obs : String) : String :=
+  match parseObs obs with
+  | none => "fail not-an-image:" ++ obs.take 40
+  | some (w, h, planes) =>
+    let (W, H) := exDims o
+    if w ≠ W ∨ h ≠ H ∨ planes.length ≠ o.planes.length then "fail padded-dimensions" else
+    let rec go (ch : Nat) (ps : List (List Int)) : String :=
+      match ps with
+      | [] => "ok"
+      | p :: rest =>
+        let spec := (match o.which with
+          | "row" => extendRowsSpec o.opt o.n (exSrc o ch) o.w o.h
+          | "col" => extendColsSpec o.opt o.n (exSrc o ch) o.w o.h
+          | _ => extendBoundarySpec o.opt o.n (exSrc o ch) o.w o.h).flatten
+        match firstDiff p spec with
+        | none => go (ch + 1) rest
+        | some idx => "fail padded-image@" ++ toString (idx % W) ++ "," ++ toString (idx / W)
+    go 0 planes
+
+def model (line : String) : String :=
+  match (words line).head? with
+  | some "c1" => match parseC1 line with | some o => modelC1 o | none => "bad-op"
+  | some "c2" => match parseC2 line with | some o => modelC2 o | none => "bad-op"
+  | some "ex" => match parseEx line with | some o => modelEx o | none => "bad-op"
+  | _ => "bad-op"
+
+def judge (op obs : String) : String :=
+  match (words op).head? with
+  | some "c1" => match parseC1 op with | some o => judgeC1 o obs | none => "fail bad-op"
+  | some "c2" => match parseC2 op with | some o => judgeC2 o obs | none => "fail bad-op"
+  | some "ex" => match parseEx op with | some o => judgeEx o obs | none => "fail bad-op"
+  | _ => "fail bad-op"
+
+def main (args : List String) : IO UInt32 := Driver.main' model judge args
